@@ -5,6 +5,7 @@ for every k; every operation is a short sequence of pointer-level steps, each co
 -/
 import Cntgs.AllocProofs
 import Cntgs.World
+import Cntgs.WorldProofs
 namespace Cntgs.C17
 
 /-- a throwing allocation changes nothing in the ledger -/
@@ -248,5 +249,20 @@ theorem copy_assign_fault_world (w : World) (s d : Nat) (vs vd : Vec) (hw : w.he
             unfold Owns at hown1 ⊢
             rw [e1]; exact hown1
       · exact absurd hbad (by simp)
+
+/-- **every history over any number of vectors in which any allocation may throw**, the caller catching `bad_alloc` and going
+    on: every vector keeps representing a plain sequence — a failed construction, reserve-less in-place operation, copy
+    construction, move assignment or swap has changed nothing, a failed copy assignment has emptied its target — and all
+    later operations behave as on those sequences (no live object clobbered, no bookkeeping left half-updated) -/
+theorem history_with_allocation_failures (ps : List Param) (hl : ListOK ps) (ops : List WOp) (w : World) (A : Nat → Option AVec)
+    (h0 : w.threw = false) (h : WInv ps w A) (hv : WValidF ps w A ops) :
+    WInv ps (wrunF ps w ops) (arunF ps w A ops) :=
+  history_refines_with_failures ps hl ops w A h0 h hv
+
+/-- one failing step: the abstract map is unchanged (copy assignment: the target is emptied) -/
+theorem failed_step (ps : List Param) (hl : ListOK ps) (w : World) (A : Nat → Option AVec) (h : WInv ps w A) (op : WOp)
+    (hpre : op.Pre ps w A) (hprev : w.threw = false) (hthrow : (op.apply ps w).threw = true) :
+    WInv ps (op.apply ps w) (op.aspecFail A) :=
+  step_refines_fail ps hl w A h op hpre hprev hthrow
 
 end Cntgs.C17
